@@ -789,6 +789,32 @@ def funref_pattern(rng):
     return src, coq
 
 
+def make_session(rng, src, coq):
+    """split a program into several inputs (one `interpret` call each, same Context) and,
+    half of the time, insert an input that fails at run time and must be rolled back"""
+    pairs = list(zip(src[1:], coq))
+    k = min(len(pairs), rng.randrange(2, 5))
+    if k < 2:
+        return None
+    cuts = sorted(rng.sample(range(1, len(pairs)), k - 1))
+    groups = [pairs[a:b] for a, b in zip([0] + cuts, cuts + [len(pairs)])]
+    z = "EScalar 0%Z"
+    if rng.random() < 0.5:
+        bad = rng.choice([
+            [("(1 / 0)", "SExpr (EBin BDiv (EScalar 1%%Z) (%s))" % z)],
+            [("let bad = (1 / 0)", 'SLet "bad" (EBin BDiv (EScalar 1%%Z) (%s))' % z)],
+            [("assert((1 > 2))", 'SProc "assert" [EBin BGt (EScalar 1%Z) (EScalar 2%Z)]')],
+            [("fn bad2(x: Scalar) -> Scalar = (x / 0)", 'SFn "bad2" ["x"] [] (EBin BDiv (EIdent "x") (%s))' % z),
+             ("let bad3 = 5", 'SLet "bad3" (EScalar 5%Z)'),
+             ("bad2(bad3)", 'SExpr (ECall "bad2" [EIdent "bad3"])')],
+        ])
+        groups.insert(rng.randrange(1, len(groups) + 1), bad)
+    s_in = [[a for a, _ in g] for g in groups]
+    c_in = [[b for _, b in g] for g in groups]
+    s_in[0] = [src[0]] + s_in[0]
+    return s_in, c_in
+
+
 def error_cases(rng):
     """programs that end in a runtime error: the error kind must agree three ways"""
     k = rng.randrange(1, 9)
@@ -838,7 +864,16 @@ FUEL_MACH_HANG = 1500      # the implementation did not terminate: only "out of 
 
 
 def coq_case(coq_stmts, mfuel=None):
+    if coq_stmts and isinstance(coq_stmts[0], list):      # a session: list of inputs
+        return "show_session %d (N.to_nat %d) %s" % (FUEL_REF, mfuel or FUEL_MACH, clist(clist(i) for i in coq_stmts))
     return "show_case %d (N.to_nat %d) %s" % (FUEL_REF, mfuel or FUEL_MACH, clist(coq_stmts))
+
+
+def case_line(src):
+    """harness input line: a program (list of statements) or a session (list of such lists)"""
+    if src and isinstance(src[0], list):
+        return " ;;; ".join(" ;; ".join(i) for i in src)
+    return " ;; ".join(src)
 
 
 def safe_mismatches(imports, items, tag, base=0, timeout=420):
@@ -917,16 +952,21 @@ def split_impl(line):
 def impl_obs(line):
     """the observation string in the model's format"""
     r, o, d = split_impl(line)
-    if r.startswith("E:") or r.startswith("T:") or r == "P" or r.startswith("@@"):
-        return "R:" + r, d
     return "R:%s ## O:%s" % (r, o), d
 
 
 BIG = re.compile(r"\d{15,}")
 
 
+def parse_obs(x):
+    m = re.match(r"^R:(.*?) ## O:(.*)$", x, re.S)
+    if not m:
+        return [x], ""
+    return m.group(1).split(" ;; "), m.group(2)
+
+
 def classify(impl_line, model_str):
-    """-> (kind, detail).  kinds: ok, overflow, model-compile, model-machine, known-funref, impl-vs-ref"""
+    """-> (kind, detail).  kinds: ok, overflow, generator, fuel, model-timeout, model-compile, model-machine, impl-vs-ref"""
     io, idump = impl_obs(impl_line)
     if model_str == "@@MODEL-TIMEOUT":
         return "model-timeout", "the model evaluation of this case did not finish"
@@ -936,47 +976,41 @@ def classify(impl_line, model_str):
     m, s, d = parts
     if BIG.search(model_str) or BIG.search(impl_line) or "e+" in impl_line.split(" ## D:")[0]:
         return "overflow", ""
-    if io.startswith("R:T:"):
-        # rejected by the type checker: the generator is wrong, not numbat
-        return "generator", io
-    def same(a, b):
-        if a.startswith("R:E:") and b.startswith("R:E:"):
-            return True
-        return a == b
-    if io == "R:E:CodeTooLarge" or m == "R:E:CodeTooLarge":
+    iR, iO = parse_obs(io)
+    mR, mO = parse_obs(m)
+    sR, sO = parse_obs(s)
+    if any(x.startswith("T:") for x in iR):
+        return "generator", io          # rejected by the type checker: the generator is wrong, not numbat
+    crashed = iR == ["P"] or any(x.startswith("@@") for x in iR)
+    if "E:CodeTooLarge" in iR or "E:CodeTooLarge" in mR:
         # explicit resource limit of the compiler (16 bit jump offsets): model and implementation must agree
-        return ("ok", "") if m == io else ("model-compile", "CodeTooLarge: implementation %s, model %s" % (io, m))
-    if io.startswith("R:E:"):
-        ok_m = (m == io)
-        ok_s = s.startswith("R:E:")
-        ok_d = True                       # the interpreter state (and the dump) is rolled back on errors
-    else:
-        ok_m = (m == io)
-        ok_s = (s == io)
-        ok_d = (d == idump)
+        return ("ok", "") if mR == iR else ("model-compile", "CodeTooLarge: implementation %s, model %s" % (iR, mR))
+    if "F" in mR and not crashed:
+        return "fuel", "model machine out of fuel"
+    any_err = any(x.startswith("E:") for x in iR)
+    ok_m = (mR == iR) and (any_err or mO == iO)
+    ok_s = (len(sR) == len(iR) and all(a == b or (a.startswith("E:") and b.startswith("E:")) for a, b in zip(sR, iR))
+            and (any_err or sO == iO))
+    ok_d = (d == idump)
     if ok_m and ok_s and ok_d:
         return "ok", ""
-    hang = io.startswith("R:@@")
-    if m == "R:F" and not hang:
-        return "fuel", "model machine out of fuel"
-    if not ok_s and io != "R:P" and not hang:
-        if not s.startswith("R:F"):
-            return "impl-vs-ref", "implementation %s, source semantics %s" % (io, s)
-    if io == "R:P" or io.startswith("R:@@"):
-        return "impl-vs-ref", "implementation %s (panic/hang), source semantics %s" % (io, s)
+    if crashed:
+        return "impl-vs-ref", "implementation %s (panic/hang), source semantics %s" % (io[:200], s[:200])
+    if not ok_s and "F" not in sR:
+        return "impl-vs-ref", "implementation %s, source semantics %s" % (io[:300], s[:300])
     if not ok_d:
         return "model-compile", "bytecode differs"
-    return "model-machine", "implementation %s, model machine %s" % (io, m)
+    return "model-machine", "implementation %s, model machine %s" % (io[:300], m[:300])
 
 
 def evaluate(binary, cases, tag):
     """cases: list of (src_lines, coq_stmts). returns list of (impl_line, model_str or None, kind, detail)"""
-    lines = [" ;; ".join(s) for s, _ in cases]
+    lines = [case_line(s) for s, _ in cases]
     impl = run_vm_harness(binary, lines)
     items = []
     for n, (s, c) in enumerate(cases):
         io, idump = impl_obs(impl[n])
-        hang = io.startswith("R:@@")
+        hang = "@@" in io.split(" ## O:")[0]
         items.append((coq_case(c, FUEL_MACH_HANG if hang else None), "%s || %s || %s" % (io, io, idump)))
     bad = safe_mismatches(["VM.Value", "VM.Ast", "VM.Bytecode", "VM.Compile", "VM.Machine", "VM.RefSem", "VM.Exec"],
                           items, tag)
@@ -1065,6 +1099,14 @@ def run(chk):
             gen_fail += 1
             continue
         feats.update(g.features)
+        if n % 4 == 2:
+            sess = make_session(chk.rng, s, c)
+            if sess:
+                cases.append(sess)
+                kinds.append("session")
+                feats["session"] += 1
+                feats["session_with_failing_input"] += int(len(sess[1]) and any("bad" in str(i) or "(1 / 0)" in str(i) or "(1 > 2)" in str(i) for i in sess[0][1:]))
+                continue
         cases.append((s, c))
         kinds.append("generated")
 
@@ -1113,14 +1155,16 @@ def run(chk):
                 continue
             kind = "impl-vs-ref"
         if kind == "impl-vs-ref" and found < 2:
-            ss, cc = shrink(binary, s, c, "impl-vs-ref") if len(c) > 1 else (s, c)
+            is_session = bool(c) and isinstance(c[0], list)
+            ss, cc = shrink(binary, s, c, "impl-vs-ref") if (len(c) > 1 and not is_session) else (s, c)
             rr = evaluate(binary, [(ss, cc)], "c09rep")[0]
             chk.violation({
                 "kind": "the implementation's result differs from the source semantics (reference evaluator)",
-                "program": ss[1:], "preamble": ss[0], "coq": cc,
+                "program": ss if is_session else ss[1:], "preamble": None if is_session else ss[0], "coq": cc,
+                "session": is_session,
                 "implementation": split_impl(rr[0])[0], "implementation_output": split_impl(rr[0])[1],
                 "model": rr[1], "detail": rr[3] or detail, "original_case_kind": kinds[n],
-                "replay": "echo '%s' | harness/target/debug/nbverif vm" % " ;; ".join(ss).replace("'", "'\\''"),
+                "replay": "echo '%s' | harness/target/debug/nbverif vm" % case_line(ss).replace("'", "'\\''"),
             })
             found += 1
         elif kind in ("model-compile", "model-machine"):
@@ -1159,9 +1203,12 @@ def run(chk):
         n = model_broken[0] if model_broken else None
         first = None
         if n is not None:
-            ss, cc = shrink(binary, cases[n][0], cases[n][1], results[n][2])
+            if cases[n][1] and isinstance(cases[n][1][0], list):
+                ss, cc = cases[n]
+            else:
+                ss, cc = shrink(binary, cases[n][0], cases[n][1], results[n][2])
             rr = evaluate(binary, [(ss, cc)], "c09rep")[0]
-            first = {"program": ss[1:], "coq": cc, "implementation": rr[0], "model": rr[1], "kind": rr[2], "detail": rr[3]}
+            first = {"program": ss, "coq": cc, "implementation": rr[0], "model": rr[1], "kind": rr[2], "detail": rr[3]}
         chk.violation({
             "kind": "proof or correspondence no longer checks",
             "theorem_or_correspondence": ("correspondence VM/Compile.v+VM/Machine.v vs bytecode_interpreter.rs+vm.rs (%d cases: %s)"
@@ -1208,7 +1255,7 @@ def replay(path):
         print(json.dumps(r, indent=1))
         return 0
     binary, _ = common.build_harness()
-    src = [r.get("preamble", "dimension Scalar = 1")] + r["program"]
+    src = r["program"] if r.get("session") else [r.get("preamble", "dimension Scalar = 1")] + r["program"]
     res = evaluate(binary, [(src, r["coq"])], "c09replay")[0]
     print("implementation:", res[0][:500])
     print("model         :", res[1])
